@@ -137,6 +137,41 @@ def h_labels(params, vals, ctx):
         return vals_sorted == sorted(vals_sorted)
 
 
+def h_labels3(params, vals, ctx):
+    """Three linked files: a listed label address is where the byte following the label lies in the image, in every file."""
+    b, n, k = vals["B"], vals["N"], vals["K"]
+    require(b in (0, 2, 510, 512))
+    require(0 <= n <= 2 and 0 <= k <= 2)
+    n, k, b = concretize(n), concretize(k), concretize(b)
+    vals = {"B": b, "N": n, "K": k}
+    late = params.get("late")
+    files = [("/w/a.mac", ("" if late else ".link {B}\n") + "fa: .byte 101, 1\n.blkb {N}\nga: .byte 111\n"),
+             ("/w/b.mac", "fb: .byte 102\n.blkb {K}\ngb: .byte 112, 2\n"),
+             ("/w/c.mac", "fc: .byte 103, 3\ngc: .byte 113\n" + (".link {B}\n" if late else ""))]
+    o = assemble(files, vals, route=ctx.route)
+    ctx.observe_outcome(o)
+    ctx.reach(o.status == "ok")
+    if o.status != "ok" or o.errors:
+        return False
+    with notrace():
+        try:
+            lst = parse_listing(o.comp.generate_listing())
+        except ValueError:
+            return False
+        code = bytes(o.code)
+        if list(lst) != ["/w/a.mac", "/w/b.mac", "/w/c.mac"]:
+            return False
+        for fn, marks in (("/w/a.mac", {"fa": 0o101, "ga": 0o111}), ("/w/b.mac", {"fb": 0o102, "gb": 0o112}), ("/w/c.mac", {"fc": 0o103, "gc": 0o113})):
+            entries = dict((nm, v) for v, nm in lst[fn])
+            if sorted(entries) != sorted(marks) or len(lst[fn]) != 2:
+                return False
+            for nm, marker in marks.items():
+                off = entries[nm] - b
+                if not (0 <= off < len(code)) or code[off] != marker:
+                    return False
+        return True
+
+
 SRC = "/w/src/prog.mac"
 
 
@@ -161,6 +196,19 @@ def h_lstpath(params, vals, ctx):
     elif sel == "make+o":
         text = 'make_raw "first.dat"\n' + text
         kw["outfile"] = "/w/out/image.bin"
+    src_path = SRC
+    if sel == "o-dotted-dir":
+        kw["outfile"] = "/w/build.v2/prog.bin"
+    elif sel == "o-dotted-name":
+        kw["outfile"] = "/w/out/prog.v2.bin"
+    elif sel == "make_raw-dotted-dir":
+        text = 'make_raw "out.d/image.raw"\n' + text
+    elif sel == "make_bin-dotted-src":
+        text = 'make_bin\n' + text
+        src_path = "/w/src.d/game.v2.mac"
+    elif sel == "implicit-dotted-src":
+        kw["implicit_bin"] = True
+        src_path = "/w/src.d/game.v2.mac"
     from ..symasm import render, inject
     import pdpy11.parser as PP
     order = ["X"]
@@ -174,7 +222,7 @@ def h_lstpath(params, vals, ctx):
                 inject(ast, order, vals)
         return ast
 
-    r = CH.run_cli([SRC], {SRC: src}, lst=True, report_format="bare", parse_fn=parse_fn, **kw)
+    r = CH.run_cli([src_path], {src_path: src}, lst=True, report_format="bare", parse_fn=parse_fn, **kw)
     ctx.observe(r.exit, r.writes, r.crash)
     ctx.reach(r.exit is None)
     if r.crash is not None or r.exit is not None:
@@ -182,6 +230,8 @@ def h_lstpath(params, vals, ctx):
     want = {
         "none": None, "o-bin": "/w/out/image.lst", "o-BIN": "/w/out/IMAGE.BIN.lst", "o-raw": "/w/out/image.rom.lst", "implicit": "/w/src/prog.lst",
         "make_bin": "/w/src/out/made.lst", "make_raw+make_bin": "/w/src/first.dat.lst", "make+o": "/w/out/image.lst",
+        "o-dotted-dir": "/w/build.v2/prog.lst", "o-dotted-name": "/w/out/prog.v2.lst", "make_raw-dotted-dir": "/w/src/out.d/image.lst",
+        "make_bin-dotted-src": "/w/src.d/game.v2.lst", "implicit-dotted-src": "/w/src.d/game.v2.lst",
     }[sel]
     lsts = [w for w in r.writes if w[1] == "w"]
     if want is None:
@@ -196,7 +246,7 @@ def h_lstpath(params, vals, ctx):
         lst = parse_listing(lsts[0][2])
     except ValueError:
         return False
-    return lst == {SRC: sorted([(x, "val"), (0o1000, "lbl")], key=lambda t: (t[0], t[1]))}
+    return lst == {src_path: sorted([(x, "val"), (0o1000, "lbl")], key=lambda t: (t[0], t[1]))}
 
 
 def obligations(tier, seed):
@@ -205,11 +255,16 @@ def obligations(tier, seed):
         obs.append(Ob(oid=f"render/{nm}", harness=P + "h_render", params={"window": win}, vars={"V": "int"}, timeout=900))
     obs.append(Ob(oid="order/3", harness=P + "h_order", params={"names": ["mid", "Alpha", "zed"], "span": 3 if tier == "thorough" else 2}, vars={"V1": "int", "V2": "int", "V3": "int"}, timeout=1200))
     obs.append(Ob(oid="order/2+file2", harness=P + "h_order", params={"names": ["b", "a"], "second": True}, vars={"V1": "int", "V2": "int"}, timeout=600))
+    obs.append(Ob(oid="order/dotted-names", harness=P + "h_order", params={"names": ["tab.end", "x.init", "io.buf.len"], "span": 1},
+                  vars={"V1": "int", "V2": "int", "V3": "int"}, timeout=600))
+    for late in (False, True):
+        obs.append(Ob(oid="labels/three-files" + ("/late-link" if late else ""), harness=P + "h_labels3", params={"late": late}, vars={"B": "int", "N": "int", "K": "int"}, timeout=900))
     if tier == "thorough":
         obs.append(Ob(oid="order/4", harness=P + "h_order", params={"names": ["d", "b", "a", "c"], "span": 1}, vars={f"V{i}": "int" for i in range(1, 5)}, timeout=3000))
     obs.append(Ob(oid="labels", harness=P + "h_labels", params={"dmax": 3 if tier == "thorough" else 2}, vars={"B": "int", "N": "int", "K": "int"},
                   timeout=3000 if tier == "thorough" else 900))
     obs.append(Ob(oid="labels/late-link", harness=P + "h_labels", params={"dmax": 2, "late": True}, vars={"B": "int", "N": "int", "K": "int"}, timeout=900))
-    for sel in ("none", "o-bin", "o-BIN", "o-raw", "implicit", "make_bin", "make_raw+make_bin", "make+o"):
+    for sel in ("none", "o-bin", "o-BIN", "o-raw", "implicit", "make_bin", "make_raw+make_bin", "make+o",
+                "o-dotted-dir", "o-dotted-name", "make_raw-dotted-dir", "make_bin-dotted-src", "implicit-dotted-src"):
         obs.append(Ob(oid=f"lstpath/{sel}", harness=P + "h_lstpath", params={"selector": sel}, vars={"X": "int"}, timeout=600))
     return obs
